@@ -140,7 +140,7 @@ NextN == \E tag \in Tags :
 \* top-down construction: a container is attached first and grows afterwards (framing and repeatability are still required;
 \* the eager length bookkeeping of some adders makes nested lengths stale, so only C01 / C13 are judged on this family)
 EmitTD(top) == PrintT(ToJson([k |-> "build", fam |-> "T", nospec |-> TRUE, top |-> top.n, ops |-> top.ops, observe |-> Obs4(top.n) \o Obs4(top.n),
-                              kids |-> <<>>, trees |-> [x \in {top.n} |-> [T |-> top.tree.T, Type |-> (IF "Type" \in DOMAIN top.tree THEN top.tree.Type ELSE <<0>>)]]]))
+                              kids |-> <<>>, trees |-> [x \in {top.n} |-> [T |-> top.tree.T]]]))
 NextT == \E shape \in {"instr-then-actions", "ct-then-nat-ranges", "instr-then-ct-actions", "bucket-then-note", "pktout-then-learnspecs",
                        "instr-actions-after-flowmod", "ct-in-bucket-then-actions"}, tag \in Tags :
             /\ c' = <<shape, tag>>
